@@ -300,6 +300,7 @@ package jsonpatch
 //@   invariant parts-kept: len(parts) == ntok(path) - 2 && (forall j int {parts[j]} :: 0 <= j && j < len(parts) ==> parts[j] == tok(path, j + 1))
 
 //@ func (Patch).add
+//@   callees[C18] Path, findObject, value, add
 //@   requires args: doc != nil && rConOK(*doc)
 //@   requires op: rOpOK(op)
 //@   ensures[C04,C18] container: rConOK(*doc) && *doc == old(*doc)
@@ -315,6 +316,7 @@ package jsonpatch
 //@   ensures[C18] value-is-patch-value: reached(value#1) && "value" in op ==> v != nil && v.raw == op["value"]
 
 //@ func (Patch).remove
+//@   callees[C18] Path, findObject, remove
 //@   requires args: doc != nil && rConOK(*doc)
 //@   requires op: rOpOK(op)
 //@   ensures[C04,C18] container: rConOK(*doc) && *doc == old(*doc)
@@ -329,6 +331,7 @@ package jsonpatch
 //@   ensures[C18] array-element-absent: reached(findObject#1) && con != nil && rIsAry(con) && !idxRefOK(key, at(findObject#1, len(*rAryOf(con))), neg) ==> err != nil && *rAryOf(con) == at(findObject#1, *rAryOf(con))
 
 //@ func (Patch).replace
+//@   callees[C18] Path, value, tryDoc, tryAry, findObject, get, set
 //@   requires args: doc != nil && rConOK(*doc)
 //@   requires op: rOpOK(op)
 //@   ensures[C04,C18] container: rConOK(*doc)
@@ -343,6 +346,7 @@ package jsonpatch
 //@   ensures[C18] array-element-replaced: reached(findObject#1) && con != nil && rIsAry(con) && idxRefOK(key, at(findObject#1, len(*rAryOf(con))), neg) ==> err == nil && len(*rAryOf(con)) == at(findObject#1, len(*rAryOf(con))) && (*rAryOf(con))[idxRefVal(key, len(*rAryOf(con)))] == v
 
 //@ func (Patch).move
+//@   callees[C18] From, findObject, get, remove, Path, add
 //@   requires args: doc != nil && rConOK(*doc)
 //@   requires op: rOpOK(op)
 //@   ensures[C04,C18] container: rConOK(*doc) && *doc == old(*doc)
@@ -361,6 +365,7 @@ package jsonpatch
 //@   ensures[C18] array-destination: reached(findObject#2) && dst != nil && rIsAry(dst) && err == nil ==> (*rAryOf(dst))[idxAddVal(dstKey, at(findObject#2, len(*rAryOf(dst))))] == at(findObject#1, rConAt(con, key))
 
 //@ func (Patch).test
+//@   callees[C18] Path, value, equal, findObject, get
 //@   requires args: doc != nil && rConOK(*doc)
 //@   requires op: rOpOK(op)
 //@   ensures[C04,C18] container: rConOK(*doc) && *doc == old(*doc)
@@ -374,6 +379,7 @@ package jsonpatch
 //@   ensures[C18] mismatch-is-test-failed: reached(findObject#1) && con != nil && at(findObject#1, rConHas(con, key, neg)) && err != nil ==> isTestFailed(err)
 
 //@ func (Patch).copy
+//@   callees[C18] From, findObject, get, Path, deepCopy, NewAccumulatedCopySizeError, add
 //@   requires args: doc != nil && accumulatedCopySize != nil && rConOK(*doc)
 //@   requires op: rOpOK(op)
 //@   requires total: *accumulatedCopySize >= 0
@@ -409,6 +415,7 @@ package jsonpatch
 //@   ensures[C18] nothing-with-error: err != nil ==> result.0 == nil
 
 //@ func (Patch).ApplyIndent
+//@   callees[C18] Kind, add, remove, replace, move, test, copy
 //@   callsite[C18] add#1 add-operations-are-applied-by-add-in-patch-order: rOpKind(op) == "add" && arg_op == op && op == p[rangeindex + 1]
 //@   callsite[C18] remove#1 remove-operations-are-applied-by-remove-in-patch-order: rOpKind(op) == "remove" && arg_op == op && op == p[rangeindex + 1]
 //@   callsite[C18] replace#1 replace-operations-are-applied-by-replace-in-patch-order: rOpKind(op) == "replace" && arg_op == op && op == p[rangeindex + 1]
